@@ -64,12 +64,18 @@ CHECKS = {
          "afterwards. Conflict condition and probe wait come from prober.cpp. Tie: model vs real Prober under virtual time on all "
          "schedules of <= 3 (thorough 4) events on the deadline grid plus random ones; the extracted acceptor judges the implementation.",
          "DESIGN.md section 4 (C07)", "Rocq coupling proof (model run accepted by executable acceptor) + SrcFacts regeneration + differential correspondence under virtual time"),
- "C08": ("Theorem (Properties_C08.v, partial): no handler invocation of an unregistered hostname object - message, timer, API - produces a "
-         "reply. The remaining clauses (registration only after a full undisturbed 2 s A+AAAA probe for exactly that name, next "
-         "suffixed candidate on conflict, registered name = value of the last change notification through every 30-minute re-probe) "
-         "are decided on every run by the extracted acceptor mon_hostname on the traces of the real Hostname under virtual time and "
-         "of the model (equal by the correspondence), over histories spanning several re-probe cycles; their coupling proof is not yet written.",
-         "DESIGN.md section 4 (C08)", "Rocq proof (partial) on the hostname model + executable acceptor on implementation traces + differential correspondence under virtual time"),
+ "C08": ("Theorems (Properties_C08.v, over HostnameInv.v): [hreach] is every state the hostname object reaches under the virtual-time kernel - any "
+         "messages, any clock advances, timers fired at or after their deadline - and every state of the executable model after any script "
+         "is in it (C08_model_runs_are_reachable). In every such state: registered => hostname = value of the last hostnameChanged "
+         "(C08_registered_name_is_last_notified); the registration timer can only be due when the latest probe was for exactly the current "
+         "name and >= registration_wait_ms old, firing it registers that name, and no other transition sets the flag "
+         "(C08_registration_is_probe_backed, C08_only_registration_timer_registers); a conflicting response while unregistered moves to a "
+         "strictly larger suffix, probes it at once and re-arms the full wait (C08_conflict_restarts_wait); every broadcast is an A+AAAA "
+         "probe (C08_broadcasts_are_probes); an unregistered object never replies (C08_unregistered_never_replies_partial). Not proved: that "
+         "the executable acceptor mon_hostname accepts every model run (it is run instead, on model and implementation traces). Tie: "
+         "registration_wait_ms / rebroadcast_ms and the conflict / question decisions regenerated from hostname.cpp; model vs real Hostname "
+         "under virtual time over histories spanning several re-probe cycles; the extracted acceptor judges the implementation traces.",
+         "DESIGN.md section 4 (C08)", "Rocq invariant proof over all reachable states of the hostname model + executable acceptor on implementation traces + differential correspondence under virtual time"),
  "C10": ("Theorem C10_srv_targets_registered (Properties_C10.v): in every state of the provider/hostname/prober composite reachable by any "
          "sequence of handler invocations (any message, any timer at any instant, update, destroy) every SRV record in every response "
          "sent has a target that is empty or a name under which the hostname object actually became registered; no answer before "
